@@ -162,3 +162,36 @@ def render_data_module(public, private, tlds):
         out.append('  "%s",\n' % t)
     out.append("]\n")
     return "".join(out)
+
+
+def tld_spellings(tlds):
+    """(spellings, unjudged). spellings: every spelling under which a listed TLD
+    is a valid TLD — the entry itself (lower-cased) and its A-label when the
+    standard codec gives one that decodes back to the entry. A label outside this
+    set is not a listed TLD, whatever a lax decoder makes of it ('xn--com-' is not
+    a spelling of 'com'). unjudged: a data file listing an A-label directly is
+    not something upgrade() ever writes (it stores decoded entries); both
+    spellings of such an entry are left alone."""
+    out = set()
+    unjudged = set()
+    for t in tlds:
+        t = str(t).lower()
+        if t.startswith("xn--"):
+            unjudged.add(t)
+            try:
+                unjudged.add(t.encode("ascii").decode("idna"))
+            except (UnicodeError, ValueError):
+                pass
+            continue
+        out.add(t)
+        try:
+            a = t.encode("idna").decode("ascii")
+            if a.encode("ascii").decode("idna") == t:
+                out.add(a.lower())
+        except (UnicodeError, ValueError):
+            pass
+    return out, unjudged
+
+
+def tld_listed(spellings, label):
+    return label.lstrip(".").lower() in spellings
